@@ -117,6 +117,15 @@ CLAIMED["C15"] = dict(
     technique="TLC invariants on the listener-machine/serialiser specification for tdm scripts + replay into real load/dumps",
     design="7/C15")
 
+CLAIMED["C09"] = dict(
+    text="TLC enumerates abstract programs directly (every supported value kind incl. opaque atoms -0.0, 5e-324, 1e+-300, 2^62, negative real/imaginary "
+         "parts, 18 arrays up to 3x3, lists, SymPy terms; positional, keyword and option position) and checks Load(Serialize(p)) = p on the "
+         "specification. The harness builds each program through the real API twice (Python scalars and 64-bit NumPy scalars), calls dumps, requires "
+         "loads to accept the text, and compares the reloaded program with p structurally and exactly (arrays: shape, dtype kind, every element).",
+    note="Trusted: TLC. Programs are assembled the way the repository's tests do. Keyword/option names that are Blackbird keywords are outside the property.",
+    technique="TLC-enumerated abstract programs (round trip on the Serialize/Load specification) built through the real API and re-loaded",
+    design="7/C09")
+
 NOT_YET = {}
 
 
